@@ -21,16 +21,24 @@ namespace Ioflo.KeepAlive
 
 abbrev Bytes := List Nat
 
-/-- a request: its identity (the application echoes it in the response, so that matching is observable) -/
+/-- a request: its identity (the application echoes it in the response, so that matching is observable) and whether
+its method is HEAD -/
 structure Req where
   id : Nat
+  head : Bool := false
   deriving DecidableEq, Repr
+
+/-- what labels a response head: the identity of the request it answers, and whether the client will treat the
+response as body-less whatever its headers say (status 204 / 304, or the answer to a HEAD request) -/
+abbrev Tag := Nat × Bool
 
 /-- what the WSGI application does for one request: the `Content-Length` header it passes to `start_response`
 (if any) and its successive yields -/
 structure AppResp where
   cl : Option Nat
   pieces : List Bytes
+  /-- the status it passes is 204 or 304 -/
+  bodyless : Bool := false
   deriving DecidableEq
 
 /-- how the end of a response body can be recognised by the receiver -/
@@ -42,7 +50,7 @@ inductive Framing
 
 /-- what travels from server to client -/
 inductive Item
-  | head (tag : Nat) (f : Framing)
+  | head (tag : Tag) (f : Framing)
   | data (b : Bytes)
   | term
   deriving DecidableEq
@@ -68,14 +76,14 @@ structure Server where
   cl : Option Nat := none            -- the running application's Content-Length
   script : List Bytes := []          -- the running application's remaining yields
   appStarted : Bool := false         -- its `start_response` call has been made
-  tag : Nat := 0                     -- identity of the request being answered
+  tag : Tag := (0, false)            -- identity of the request being answered; is its response body-less for the client
   tx : List Item := []               -- `ix.txes`
   heads : List Framing := []         -- ghost: framing of every head written so far
   served : Nat := 0                  -- ghost: number of requests handed to the application
   deriving DecidableEq
 
 /-- `Responder.write(msg)`: the items queued and the responder afterwards; `tag` labels the head -/
-def Responder.write (r : Responder) (tag : Nat) (msg : Bytes) : Responder × List Item × List Framing :=
+def Responder.write (r : Responder) (tag : Tag) (msg : Bytes) : Responder × List Item × List Framing :=
   -- head first (`build`): chunked iff chunkable (no Transfer-Encoding header from these applications)
   let f : Framing := match r.length with
     | some n => .length n
@@ -100,7 +108,7 @@ def Server.serviceReqs (app : Req → AppResp) (s : Server) : Server :=
     | q :: rest =>
       -- new Responder, or `reset(environ, chunkable)`: either way a fresh HTTP/1.1 responder state
       { s with rx := rest, parsing := false, resp := some { chunkable := true },
-               cl := (app q).cl, script := (app q).pieces, appStarted := false, tag := q.id,
+               cl := (app q).cl, script := (app q).pieces, appStarted := false, tag := (q.id, q.head || (app q).bodyless),
                served := s.served + 1 }
   else s
 
@@ -112,7 +120,7 @@ def Responder.start (r : Responder) (cl : Option Nat) : Responder :=
 
 /-- one `next()` of the application's iterator inside `Responder.service()` (the responder has been started):
 the responder afterwards, the remaining yields, the items queued, the head framings written -/
-def Responder.serviceOnce (r : Responder) (tag : Nat) : List Bytes → Responder × List Bytes × List Item × List Framing
+def Responder.serviceOnce (r : Responder) (tag : Tag) : List Bytes → Responder × List Bytes × List Item × List Framing
   | [] =>
     -- StopIteration: `write(b'')`, ended
     let w := r.write tag []
@@ -172,13 +180,18 @@ inductive Outcome
   | stuck                                                    -- bytes the parser cannot interpret (outside the model)
   deriving DecidableEq
 
+/-- how the client delimits a response whose head announces `f`: for a body-less response (204 / 304 / answer to
+HEAD) `parseHead` forces the length to 0 — but chunked transfer coding, checked first in `parseBody`, still applies -/
+def effective (f : Framing) (bodyless : Bool) : Framing :=
+  if bodyless then (match f with | .chunked => .chunked | _ => .length 0) else f
+
 /-- the `Respondent` parser, reduced to how a response is delimited, over the buffered items -/
 def feed : Option (Nat × Framing × Bytes) → List Item → Outcome
   | cur, [] => .more cur
   | none, Item.head t f :: rest =>
-    (match f with
-     | .length 0 => .done t [] rest
-     | _ => feed (some (t, f, [])) rest)
+    (match effective f t.2 with
+     | .length 0 => .done t.1 [] rest
+     | f' => feed (some (t.1, f', [])) rest)
   | none, _ :: _ => .stuck
   | some (t, .length n, acc), Item.data b :: rest =>
     if (acc ++ b).length ≥ n then
